@@ -3,6 +3,8 @@
 //verif:assume end-to-end diamond through the real code as the CLI drives it (CreateDiamond, NewSplit + CreateSplit + Split.Upload, GetDiamond + NewDiamond + Commit with the real split iterator and index upload); compared with a plain Upload of the same files into the same repository
 //verif:cover VerifC11SingleSplit with-empty-split-first plain-equals-diamond
 //verif:cover VerifC11PackStamps two-entries
+//verif:assume commit under faults: two completed splits (s1: a, c; s2: b, c) committed with a solver-chosen listing page size 1..7 and optionally one transient store fault at a solver-chosen store call of the commit (reads and listings included)
+//verif:cover VerifC11CommitFaults faulted-commit-failed page-size-1 no-fault
 package core
 
 import (
@@ -98,4 +100,49 @@ func containsStr(s, sub string) bool {
 		}
 	}
 	return false
+}
+
+// VerifC11CommitFaults: a commit over two completed splits, listing them with any page size and hit by at most one
+// transient store fault: whenever it reports success the bundle is the full merge of both splits (the later split
+// wins the shared path, the loser is kept under .conflicts).
+func VerifC11CommitFaults() {
+	vBudget(900000000)
+	vUnwind(300000)
+	w := vNewDiamondWorld()
+	vNextSecond()
+	vAssert(w.splitAdd("s1", map[string]string{"a": "s1-a", "c": "s1-c"}, []string{"a", "c"}) == nil, "split")
+	vNextSecond()
+	vAssert(w.splitAdd("s2", map[string]string{"b": "s2-b", "c": "s2-c"}, []string{"b", "c"}) == nil, "split")
+	page := vInt("pageSize", 1, 7)
+	if page == 1 {
+		vCover("page-size-1")
+	}
+	cr := &vCrasher{stores: []*vStore{w.meta, w.vmeta, w.blob}, allCalls: true, transient: true}
+	cr.crashAt = vInt("faultAt", 0, 24)
+	cr.install()
+	vNextSecond()
+	d, err := w.committer(model.EnableConflicts)
+	if err == nil {
+		err = d.Commit(BatchSize(page))
+	}
+	cr.revive()
+	if cr.crashAt > 0 && !cr.crashed {
+		vAssume(false)
+	}
+	vObserve("faulted-call", cr.at)
+	if !cr.crashed {
+		vCover("no-fault")
+		vAssert(err == nil, "commit-succeeds")
+	}
+	if err != nil {
+		vCover("faulted-commit-failed")
+		return
+	}
+	got, e := w.entries(d.BundleID)
+	vAssert(e == nil, "bundle-readable")
+	vAssert(vSameKeys(got, map[string]bool{"a": true, "b": true, "c": true, ".conflicts/s1/c": true}), "bundle-is-the-full-merge-of-both-splits")
+	if e == nil {
+		vAssert(got["a"] == w.keyOf("s1-a") && got["b"] == w.keyOf("s2-b"), "files-carry-their-splits-content")
+		vAssert(got["c"] == w.keyOf("s2-c") && got[".conflicts/s1/c"] == w.keyOf("s1-c"), "latest-split-wins-and-the-loser-is-kept")
+	}
 }
